@@ -77,23 +77,10 @@ func logtest(s *slip.Scope, a1, a2 slip.Object, depth int) (result slip.Object) 
 }
 
 func bigLogtest(b1, b2 *big.Int) slip.Object {
-	bb1 := b1.Bytes()
-	reverseBytes(bb1)
-	bb2 := b2.Bytes()
-	reverseBytes(bb2)
-	// Reversed so the least significant for both are at the start.
-	if len(bb1) <= len(bb2) {
-		for i, b := range bb1 {
-			if bb2[i]&b != 0 {
-				return slip.True
-			}
-		}
-	} else {
-		for i, b := range bb2 {
-			if bb1[i]&b != 0 {
-				return slip.True
-			}
-		}
+	// And works on the two's complement form, also for negative integers.
+	var bi big.Int
+	if bi.And(b1, b2).Sign() != 0 {
+		return slip.True
 	}
 	return nil
 }
